@@ -67,7 +67,8 @@ def run_checks(patch, checks, tier):
                 whys[cur] = l.strip()[:300]
             elif l.startswith("RESULT property="):
                 pid = l.split("property=")[1].split()[0]
-                results[pid] = {"rc": int(l.rsplit("rc=", 1)[1]), "violations": nviol.get(pid, 0), "first_why": whys.get(pid, ""), "machinery": []}
+                results[pid] = {"rc": int(l.rsplit("rc=", 1)[1]), "violations": nviol.get(pid, 0), "first_why": whys.get(pid, ""),
+                                "machinery": results.get(pid, {}).get("machinery", [])}
             elif l.startswith("MACHINERY-ERROR: property="):
                 pid = l.split("property=")[1].split()[0]
                 results.setdefault(pid, {})["machinery"] = [l[:300]]
